@@ -15,6 +15,8 @@ use happylock::poisonable::Poisonable;
 pub enum SlotObj {
     Leaf(Leaf),
     Unit(Unit),
+    RUnit(RUnit),
+    Empty,
 }
 
 pub struct World {
@@ -22,6 +24,7 @@ pub struct World {
     arena: *mut [SlotObj],
     leaf_ptr: Vec<Option<*const Leaf>>,
     unit_ptr: Vec<Option<*const Unit>>,
+    runit_ptr: Vec<Option<*const RUnit>>,
     /// shared targets (None if construction was rejected)
     targets: Vec<std::sync::atomic::AtomicPtr<Node>>,
     datas: Vec<*mut CML>,
@@ -47,6 +50,7 @@ impl World {
         for s in &spec.slots {
             match s {
                 Slot::Leaf(l) => slots.push(SlotObj::Leaf(Leaf::new(spec.leaves[*l], Pay::new(*l, INIT_VAL)))),
+                Slot::Unit(u) if spec.units[*u].by_ref => slots.push(SlotObj::Empty),
                 Slot::Unit(u) => {
                     let us = &spec.units[*u];
                     let leaves: Vec<Leaf> = us.leaves.iter().map(|l| Leaf::new(spec.leaves[*l], Pay::new(*l, INIT_VAL))).collect();
@@ -57,6 +61,7 @@ impl World {
         let arena: *mut [SlotObj] = Box::into_raw(slots.into_boxed_slice());
         let mut leaf_ptr = vec![None; nl];
         let mut unit_ptr = vec![None; spec.units.len()];
+        let mut runit_ptr = vec![None; spec.units.len()];
         {
             let mut g = sched.lock();
             g.shadow = vec![INIT_VAL; nl];
@@ -77,11 +82,29 @@ impl World {
                         }
                         unit_ptr[*u] = Some(unit as *const Unit);
                     }
+                    (Slot::Unit(_), SlotObj::Empty) => {}
                     _ => unreachable!(),
                 }
             }
+            // units over `&mut` arena leaves are put in place now that the leaves have addresses
+            for (i, s) in spec.slots.iter().enumerate() {
+                if let Slot::Unit(u) = s {
+                    let us = &spec.units[*u];
+                    if us.by_ref {
+                        let members: Vec<&'static mut Leaf> = us.leaves.iter().map(|l| unsafe { &mut *(leaf_ptr[*l].expect("by_ref unit leaf must have an arena slot") as *mut Leaf) }).collect();
+                        let obj: &mut SlotObj = unsafe { &mut (*arena)[i] };
+                        *obj = SlotObj::RUnit(OwnedLockCollection::new(Cont::build(us.cont, members)));
+                        if let SlotObj::RUnit(r) = obj {
+                            runit_ptr[*u] = Some(r as *const RUnit);
+                        }
+                        for l in &us.leaves {
+                            g.unit_of[*l] = Some(*u);
+                        }
+                    }
+                }
+            }
         }
-        let mut w = World { spec: spec.clone(), arena, leaf_ptr, unit_ptr, targets: Vec::new(), datas: Vec::new() };
+        let mut w = World { spec: spec.clone(), arena, leaf_ptr, unit_ptr, runit_ptr, targets: Vec::new(), datas: Vec::new() };
         for d in &spec.datas {
             // exclusive borrows of arena leaves (no other reference to these leaves is ever made)
             let members: Vec<&'static mut Leaf> = d.leaves.iter().map(|l| unsafe { &mut *(w.leaf_ptr[*l].expect("data leaf must have an arena slot") as *mut Leaf) }).collect();
@@ -136,6 +159,7 @@ impl World {
     pub fn build(&self, t: &TSpec, sched: &Sched) -> Result<Node, BuildErr> {
         match t {
             TSpec::Leaf(l) => self.leaf(*l).map(Node::Leaf).ok_or_else(|| BuildErr::Bad(format!("leaf {} is owned by a unit", l))),
+            TSpec::Unit(u) if self.spec.units[*u].by_ref => self.runit_ptr[*u].map(|p| Node::RUnit(unsafe { &*p })).ok_or_else(|| BuildErr::Bad(format!("no unit {}", u))),
             TSpec::Unit(u) => self.unit(*u).map(Node::Unit).ok_or_else(|| BuildErr::Bad(format!("no unit {}", u))),
             TSpec::Shared(i) => self.target(*i).map(Node::Shared).ok_or(BuildErr::Rejected),
             TSpec::Tagged(tag, inner) => {
@@ -147,6 +171,13 @@ impl World {
                     }
                 }
                 Ok(Node::Tagged(Box::new(n), Tag(*tag)))
+            }
+            TSpec::Group { cont, members } => {
+                let mut ms = Vec::new();
+                for m in members {
+                    ms.push(self.build(m, sched)?);
+                }
+                Ok(Node::Group(Box::new(Cont::build(*cont, ms))))
             }
             TSpec::OnData { data, kind, from, poison } => {
                 let d: &'static CML = unsafe { &*self.datas[*data] };
